@@ -489,11 +489,6 @@ void reb_simulation_save_to_stream(struct reb_simulation* r, char** bufp, size_t
     snprintf(header+cwritten+1,64-cwritten-1,"%s",reb_githash_str);
     reb_output_stream_write(bufp, &allocatedsize, sizep, header,sizeof(char)*64);
 
-    // Compress data if possible
-    // This does not affect future calculation, but might trigger a realloc.
-    if (r->ri_ias15.N_allocated > 3*r->N){
-        r->ri_ias15.N_allocated = 3*r->N;
-    }
     /// Output all fields
     int i=0;
     while (reb_binary_field_descriptor_list[i].dtype!=REB_FIELD_END){
